@@ -429,6 +429,33 @@ theorem hasKey_mem (k : String) (all : List (String × J)) (h : J.hasKey k all =
     obtain ⟨kv, hm, he⟩ := this
     exact ⟨kv, hm, he⟩
 
+/-- no default of a related class raises -/
+theorem defaultFailure_none : ∀ (fs : List CField) (specs : List FieldSpec), all2 (fieldRel kinds) fs specs = true →
+    ∀ (kvs : List (String × J)), defaultFailure specs kvs = none := by
+  intro fs
+  induction fs with
+  | nil =>
+    intro specs h2 kvs
+    cases specs with
+    | nil => rfl
+    | cons sp specs => simp [all2] at h2
+  | cons cf fs ih =>
+    intro specs h2 kvs
+    cases specs with
+    | nil => simp [all2] at h2
+    | cons sp specs =>
+      simp only [all2, Bool.and_eq_true] at h2
+      obtain ⟨hr, hrest⟩ := h2
+      simp only [fieldRel, Bool.and_eq_true] at hr
+      obtain ⟨_, hev⟩ := hr
+      simp only [defaultFailure, ih specs hrest kvs]
+      cases hd : sp.default with
+      | none => simp
+      | some r =>
+        cases r with
+        | ok d => simp
+        | error e => simp [hd] at hev
+
 /-- second pass: when coercion could complete the object, so can the model -/
 theorem finish_ok : ∀ (fs : List CField) (specs : List FieldSpec) (cs out : List (String × J)) (vals : List (String × PV)),
     all2 (fieldRel kinds) fs specs = true → CoerceInput.finish fs cs = .ok out →
@@ -791,7 +818,8 @@ mutual
                     simp [pyOf, hkve, ← hkey, this]
                 obtain ⟨fields, hfields⟩ := hfinish
                 refine ⟨.model T.base fields (vals.map (·.1)), ?_⟩
-                simp only [rekey, hf, hcl, validate, hcore, hXf, hvals, hfields]
+                have hdf := defaultFailure_none fs cl.fields h2 (rekeyKvs env S byName fs cl.fields kvs)
+                simp only [rekey, hf, hcl, validate, hcore, hXf, hdf, hvals, hfields]
   theorem acceptList : (xs : List J) → ∀ (t : TypeRef) (nl : Bool) (a : Ann) (ft : String) (ys : List J),
       coerceList S t xs = .ok ys → canonicalList env kinds S t xs = true → nullableItemUnderNonNull (!nl) t = false →
       (nl = false → t.isNonNull = true) → annOf kinds t nl = some (a, ft) →
